@@ -599,6 +599,41 @@ def stripe_proposals(V, modes, cascaded):
     return cl
 
 
+def restripe_buffers(V, nbuf):
+    """a striping proposal re-encodes the weights for its own block configuration: the SRAM weight buffers it creates
+    (Scheduler.propose_schedule_striping + buffer_tensor) are as large as THAT encoding's double-buffer sizes, whatever the reference schedule's
+    buffers were - the DMA lengths and weight ranges come from the new encoding, so a buffer that keeps the old size is overrun.
+    Symbolic old and new sizes, one or two buffers."""
+    import ethosu.vela.npu_performance  # noqa: F401
+    import ethosu.vela.scheduler as sch
+    import ethosu.vela.tensor as tensor
+    from ethosu.vela.shape4d import Shape4D
+    from ethosu.vela.tensor import MemArea, TensorSubPurpose
+    from ethosu.vela.ethos_u55_regs.ethos_u55_regs import resampling_mode
+
+    old = [V.int("reference_buffer%d" % i, 16, 1 << 20) for i in range(nbuf)]
+    new = [V.int("new_encoding_buffer%d" % i, 16, 1 << 20) for i in range(2)]
+    sub = TensorSubPurpose.DoubleBuffer if nbuf == 2 else TensorSubPurpose.Standard
+    ref_bufs = [_Obj(sub_purpose=sub, name="buf%d" % i, storage_size=lambda i=i: old[i]) for i in range(nbuf)]
+    wt = _Obj(name="weights", double_buffer_sizes=list(new))
+    op = _Obj(name="op", index=0, resampling_mode=resampling_mode.NONE, kernel=_Obj(stride=_Obj(y=1, x=1)), ofm=_Obj(shape=Shape4D(1, 64, 8, 16)),
+              ifm=_Obj(shape=Shape4D(1, 64, 8, 16)))
+    op.create_scheduler_info = lambda nng, stripe: _Obj(block_config=None, cycles=None, npu_weights_tensor=wt, buffered_weight_tensors=[], cascade=0, stripe=stripe)
+    me = _Obj(sg=_Obj(name="sg"), sched_ops=[op], nng=None, scheduler_options=_Obj(verbose_progress=False), estimate_op_performance=lambda *a: 0,
+              arch=_Obj(fast_storage_mem_area=MemArea.Sram))
+    me.buffer_tensor = lambda *a: sch.Scheduler.buffer_tensor(me, *a)
+    ref = _Obj(cost_map={op: _Obj(buffered_weight_tensors=ref_bufs, cascade=1)})
+    with core.shims((sch, {"max": core.smax, "min": core.smin}), (tensor, {"max": core.smax, "min": core.smin})):
+        prop = sch.Scheduler.propose_schedule_striping(me, Shape4D(1, 8, 8, 16), "T", ref)
+        bufs = prop.cost_map[op].buffered_weight_tensors
+        sizes = [b.shape[-1] for b in bufs]
+    cl = [("one buffer per reference buffer", len(bufs) == nbuf)]
+    for i, sz in enumerate(sizes):
+        cl.append(("buffer %d holds the new encoding's slices assigned to it" % i, L(sz) == L(new[i])))
+        cl.append(("buffer %d reads from the new encoding" % i, bufs[i].src_tensor is wt))
+    return cl
+
+
 def cascadable(V):
     """which operators may be split into stripes inside a cascade: the REAL CascadeBuilder._is_cascadable on a stand-in scheduler operation whose
     kind, padding mode, read offsets, stripe and OFM heights are symbolic.  The per-stripe lemmas above are proved for operators the cascade builder
@@ -675,7 +710,7 @@ def rolling_dims(V, **params):
     return c02.rolling_dims(V, **params)
 
 
-FUNCS = {"apply_twice": apply_twice, "cascadable": cascadable, "rolling_dims": rolling_dims, "tconv_pads": tconv_pads, "stripe_proposals": stripe_proposals, "rows": rows, "cols": cols, "rows_upscaled": rows_upscaled, "area": area, "cascade": cascade}
+FUNCS = {"restripe_buffers": restripe_buffers, "apply_twice": apply_twice, "cascadable": cascadable, "rolling_dims": rolling_dims, "tconv_pads": tconv_pads, "stripe_proposals": stripe_proposals, "rows": rows, "cols": cols, "rows_upscaled": rows_upscaled, "area": area, "cascade": cascade}
 
 
 
@@ -700,6 +735,8 @@ def instances(tier, seed):
                                 params=dict(stride=stride, mode=mode, striped=striped, hmax=hmax, kmax=kmax, split=1)))
     out.append(dict(key="rolling_dims", fn="rolling_dims", params={}))
     out.append(dict(key="cascadable", fn="cascadable", params={}))
+    for nb in (1, 2):
+        out.append(dict(key="restripe_buffers/%d" % nb, fn="restripe_buffers", params=dict(nbuf=nb)))
     for fc in (0, 1):
         out.append(dict(key="apply_twice/%s" % ("cascaded_first" if fc else "plain_first"), fn="apply_twice", params=dict(first_cascaded=fc)))
     for sx, sy in ((1, 1), (2, 2), (2, 1)):
